@@ -384,7 +384,8 @@ fn exec_par<T: 'static + Send + Sync + Clone>(chain: &[Node], partitions: usize)
                     let mut accs: Vec<Partition> = curr.into_par_iter().map(|p| local(p)).collect();
 
                     // multi-round merge with optional fanout, no cloning
-                    let f = fanout.unwrap_or(usize::MAX).max(1);
+                    // A fan-in below 2 can never shrink the accumulator list; clamp so the loop terminates.
+                    let f = fanout.unwrap_or(usize::MAX).max(2);
                     while accs.len() > 1 {
                         if f == usize::MAX {
                             accs = vec![merge(accs)];
@@ -510,7 +511,8 @@ fn exec_par<T: 'static + Send + Sync + Clone>(chain: &[Node], partitions: usize)
             } => {
                 let mut accs: Vec<Partition> = curr.into_par_iter().map(|p| local(p)).collect();
 
-                let f = fanout.unwrap_or(usize::MAX).max(1);
+                // A fan-in below 2 can never shrink the accumulator list; clamp so the loop terminates.
+                let f = fanout.unwrap_or(usize::MAX).max(2);
                 while accs.len() > 1 {
                     if f == usize::MAX {
                         accs = vec![merge(accs)];
